@@ -369,3 +369,140 @@ func runC02(tb report.TB, rep *report.Reporter, c worldCase) {
 func TestC02Pull(t *testing.T) {
 	Drive(t, "C02", genWorldCase, runC02)
 }
+
+// ---------------------------------------------------------------- C02 through the cache
+
+// TestC02CachePull: the same clauses where the statement anchors them in the cache ("cache replaces its cached
+// entity and excerpt by MergeResult.Entity"): after RepoCache.Pull returns, the bug the cache hands out
+// (Resolve) lists exactly the operations the local ref holds, nothing that was there before is gone, and the
+// excerpt counts the same comments. Histories run through the cache API on two replicas, with re-opened
+// and rebuilt caches and small cache sizes in between.
+func runC02Cache(tb report.TB, rep *report.Reporter, c c11Case) {
+	w, err := NewCWorld(2, c.Seed)
+	if err != nil {
+		tb.Fatalf("harness: cworld: %v", err)
+	}
+	defer w.Close()
+	pulls, updated, rebuilt := 0, 0, false
+	finish := func(abandoned bool) {
+		classes := []string{}
+		if updated > 0 {
+			classes = append(classes, "pull-updates-existing")
+		}
+		if rebuilt {
+			classes = append(classes, "cache-rebuilt-before-a-pull")
+		}
+		if abandoned {
+			classes = append(classes, "abandoned")
+		}
+		rep.Class("cache-pulls-monitored", pulls)
+		rep.Case(cActionKinds(c.Actions), updated > 0 && !abandoned, classes, c)
+	}
+	opsOfCache := func(r *CReplica) (map[string][]string, *ExecError) {
+		out := map[string][]string{}
+		for _, id := range sortedIds(r.Cache.Bugs().AllIds()) {
+			bc, err := r.Cache.Bugs().Resolve(entity.Id(id))
+			if err != nil {
+				return nil, &ExecError{"resolve/" + Normalize(err.Error()), id + ": " + err.Error()}
+			}
+			var ids []string
+			for _, op := range bc.Snapshot().Operations {
+				ids = append(ids, string(op.Id()))
+			}
+			out[id] = ids
+		}
+		return out, nil
+	}
+	for i, a := range c.Actions {
+		r := w.R[a.R%len(w.R)]
+		var pre map[string][]string
+		if a.Kind == "pull" {
+			var ee *ExecError
+			if pre, ee = opsOfCache(r); ee != nil {
+				if rep.Fail(tb, "C02/cache/before-pull/"+ee.Sig, ee.Detail, c) {
+					finish(true)
+					return
+				}
+			}
+		}
+		res, err := w.Exec(a)
+		if err != nil {
+			if ee, ok := err.(*ExecError); ok {
+				if rep.Fail(tb, "C02/cache/exec/"+ee.Sig, fmt.Sprintf("action #%d %s r%d: %s", i, a.Kind, a.R, ee.Detail), c) {
+					finish(true)
+					return
+				}
+			}
+			tb.Fatalf("harness: %v", err)
+		}
+		rebuilt = rebuilt || res.Rebuilt
+		if a.Kind != "pull" {
+			continue
+		}
+		r = w.R[a.R%len(w.R)]
+		pulls++
+		if res.PullUpdatedExisting {
+			updated++
+		}
+		post, ee := opsOfCache(r)
+		if ee != nil {
+			if rep.Fail(tb, "C02/cache/after-pull/"+ee.Sig, ee.Detail, c) {
+				finish(true)
+				return
+			}
+		}
+		stored, bad := readAllBugs(r.Repo)
+		for id, e := range bad {
+			if rep.Fail(tb, "C02/cache/stored-bug-unreadable-after-pull/"+Normalize(e), id+": "+e, c) {
+				finish(true)
+				return
+			}
+		}
+		for id, before := range pre {
+			after, ok := post[id]
+			if !ok {
+				if rep.Fail(tb, "C02/cache/bug-gone-after-pull", id, c) {
+					finish(true)
+					return
+				}
+				continue
+			}
+			if !isSubsequence(before, after) {
+				if rep.Fail(tb, "C02/cache/pull-lost-or-reordered-operations", fmt.Sprintf("action #%d pull r%d bug %s\nbefore %v\nafter  %v", i, a.R, id, before, after), c) {
+					finish(true)
+					return
+				}
+			}
+		}
+		for id, inGit := range stored {
+			inCache, ok := post[id]
+			if !ok {
+				if rep.Fail(tb, "C02/cache/stored-bug-unknown-to-the-cache-after-pull", id, c) {
+					finish(true)
+					return
+				}
+				continue
+			}
+			// staged (uncommitted) operations of this replica may follow what git holds
+			if len(inCache) < len(inGit) || strings.Join(inCache[:len(inGit)], ",") != strings.Join(inGit, ",") {
+				if rep.Fail(tb, "C02/cache/entity-kept-by-the-cache-is-not-the-merged-result", fmt.Sprintf("action #%d pull r%d bug %s: Resolve() hands out a bug that lacks what the pull stored\nlocal ref %v\ncache     %v", i, a.R, id, inGit, inCache), c) {
+					finish(true)
+					return
+				}
+			}
+			if ex, err := r.Cache.Bugs().ResolveExcerpt(entity.Id(id)); err == nil {
+				if bc, err := r.Cache.Bugs().Resolve(entity.Id(id)); err == nil && ex.LenComments != len(bc.Snapshot().Comments) {
+					if rep.Fail(tb, "C02/cache/excerpt-not-replaced-by-the-merged-result", fmt.Sprintf("bug %s: excerpt counts %d comments, the bug has %d", id, ex.LenComments, len(bc.Snapshot().Comments)), c) {
+						finish(true)
+						return
+					}
+				}
+			}
+		}
+	}
+	finish(false)
+}
+
+func TestC02CachePull(t *testing.T) {
+	Drive(t, "C02", genC11, runC02Cache)
+}
